@@ -1,6 +1,6 @@
 //! C10 - encoding is independent of call history and of the calling thread.
 //!
-//! Every sequence (length <= 3 quick, <= 4 thorough) over a call alphabet K is executed on one
+//! Every sequence of length <= 3 over a call alphabet K (thorough: also length 4 over a reduced alphabet) is executed on one
 //! newly spawned thread; call by call the bytes must equal the bytes of the same call made alone
 //! on a fresh thread.
 use crate::bitmodel::{FailingSink, Flavour};
@@ -370,7 +370,7 @@ pub fn run(args: &Args, rep: &Arc<Report>) {
     }
     let refs = Arc::new(refs);
     // all sequences of length 1..=depth (the index is decoded into the sequence, nothing is materialised)
-    let depth: usize = if thorough { 4 } else { 3 };
+    let depth: usize = 3;
     let mut offsets = vec![0usize];
     for l in 1..=depth {
         offsets.push(offsets[l - 1] + k.pow(l as u32));
@@ -386,7 +386,7 @@ pub fn run(args: &Args, rep: &Arc<Report>) {
         }
         v
     };
-    let chunk = if thorough { 64 } else { 16 };
+    let chunk = 16;
     par_for(
         rep,
         (n + chunk - 1) / chunk,
@@ -398,6 +398,42 @@ pub fn run(args: &Args, rep: &Arc<Report>) {
             }
         },
     );
+    // thorough: every sequence of length 4 over the reduced alphabet K' (the calls that leave or read
+    // per-thread state in the most ways); length 4 over the whole of K would be 5.8 million sequences
+    let mut depth4 = 0usize;
+    if thorough {
+        let core: Vec<usize> = (0..k)
+            .filter(|&i| {
+                let n = alpha[i].0.as_str();
+                ["lpc", "window_tukey0.4", "window_rect", "one_frame_of", "failing", "bad_sample", "stereo16_bs192", "mono16_bs4096", "rice_cap2", "decode_stereo16", "mt_stereo16", "stereo16_bs1152", "bytes_tail63"].iter().any(|p| n.contains(p))
+            })
+            .collect();
+        let kc = core.len();
+        let n4 = kc.pow(4);
+        depth4 = n4;
+        let seq4 = |mut i: usize| -> Vec<usize> {
+            let mut v = vec![0usize; 4];
+            for p in (0..4).rev() {
+                v[p] = core[i % kc];
+                i /= kc;
+            }
+            v
+        };
+        par_for(
+            rep,
+            (n4 + 63) / 64,
+            Duration::from_secs(600),
+            |i| json!({"call_sequence_names": seq4(i * 64).iter().map(|&j| alpha[j].0.clone()).collect::<Vec<_>>()}),
+            |i, local| {
+                for x in i * 64..((i + 1) * 64).min(n4) {
+                    run_sequence(rep, local, &alpha, &refs, &seq4(x));
+                }
+            },
+        );
+        rep.extra("reduced_alphabet", json!(core.iter().map(|&i| alpha[i].0.clone()).collect::<Vec<_>>()));
+        rep.extra("sequences_of_length_4_over_the_reduced_alphabet", json!(n4));
+    }
+    let _ = depth4;
     // "... or any other thread": every unordered pair of calls made at the same time on two newly
     // spawned threads (released together by a barrier; one operating-system schedule per pair - a
     // sample in the schedule dimension, but every reported difference is a real one)
@@ -446,7 +482,7 @@ pub fn run(args: &Args, rep: &Arc<Report>) {
     rep.extra("max_sequence_length_completed", json!(depth));
     rep.extra("concurrent_pairs", json!(npairs));
     rep.set_rule(&format!(
-        "call alphabet K of {k} calls (stream encodes differing in block size / channels / width / loudness / Rice cap / LPC order / window incl. alphas closer than 2^-16 and adjacent block lengths; frame-level assembly; multi-thread encode; serialisation through the word sink; parse + re-serialise; a header write that fails; stream writes into a failing sink); an encode refused for an out-of-width sample in block 0 / 1, the crate's own decoder, a rejected configuration); every sequence over K of length 1..={} (complete: |K|+|K|^2+...); each sequence runs on one newly spawned thread and each call's bytes must equal the bytes of that call made alone on a fresh thread (references computed twice); in addition every unordered pair of calls made at the same time on two fresh threads (one OS schedule each); non-trivial = a sequence of at least two calls that agreed",
+        "call alphabet K of {k} calls (stream encodes differing in block size / channels / width / loudness / Rice cap / LPC order / window incl. alphas closer than 2^-16 and adjacent block lengths; frame-level assembly; multi-thread encode; serialisation through the word sink; parse + re-serialise; a header write that fails; stream writes into a failing sink); an encode refused for an out-of-width sample in block 0 / 1, the crate's own decoder, a rejected configuration); every sequence over K of length 1..={} (complete: |K|+|K|^2+|K|^3; thorough: in addition every sequence of length 4 over a reduced alphabet, listed in the evidence); each sequence runs on one newly spawned thread and each call's bytes must equal the bytes of that call made alone on a fresh thread (references computed twice); in addition every unordered pair of calls made at the same time on two fresh threads (one OS schedule each); non-trivial = a sequence of at least two calls that agreed",
         depth
     ));
 }
